@@ -611,6 +611,8 @@ class Subscription(BaseSubscription):
             subwhere.append("created_at < %d" % filter_obj.until)
         if filter_obj.tags:
             for tagname, tags in filter_obj.tags:
+                # the tag name comes from the client, too
+                tagname = tagname.replace("'", "''")
                 pstr = []
                 for val in tags:
                     if val:
